@@ -21,6 +21,7 @@ import time
 from typing import Any, Dict, List
 
 from .. import core_check, flagrace, gen, report
+from ..core_check import budget_collect
 from . import c08
 from .core import NPROC, _size
 
@@ -90,6 +91,11 @@ def _dummy_built():
     return pipeline.Built(sp)
 
 
+def _kind_unit(ka):
+    k, a = ka
+    return (k, (_core_unit if k == "core" else _sched_unit)(a))
+
+
 def run(prop: str, tier: str, seed: int) -> int:
     t0 = time.time()
     q = tier == "quick"
@@ -113,9 +119,9 @@ def run(prop: str, tier: str, seed: int) -> int:
     import concurrent.futures as cf
 
     with cf.ProcessPoolExecutor(max_workers=NPROC) as ex:
-        futs = [ex.submit(_core_unit if k == "core" else _sched_unit, a) for k, a in units]
+        futs = [ex.submit(_kind_unit, ka) for ka in units]
         tviol, tstats, terrs = thread_part(seed, 60 if q else 150)
-        results = [(units[i][0], f.result()) for i, f in enumerate(futs)]
+        results = budget_collect(futs)
     cov: Dict[str, Any] = {"states": tstats["flag_states"], "transitions": tstats["flag_transitions"], "core_edges_replayed": 0,
                            "sched_edges_replayed": 0, "trace_steps_validated": 0, "divergences": 0, "machines": 0,
                            "thread_level": tstats, "samples": []}
